@@ -571,7 +571,7 @@ func (e *engine) procStep(st map[string]any, a, p, res string, args map[string]a
 					return e.gateMismatch(a, "blocked at AddTableFilesToManifest", run, where(run))
 				}
 				e.release(run, true)
-			case "refread", "edit", "cas":
+			case "cas":
 				if run.pending == nil || run.pending.kind != "cas" {
 					return e.gateMismatch(a, "blocked at ChunkStore.Commit", run, where(run))
 				}
